@@ -1,4 +1,14 @@
 let () =
-  match Array.to_list Sys.argv with
+  let argv = Array.to_list Sys.argv in
+  let rec opts = function
+    | "--thr" :: v :: r -> D_static.thr := int_of_string v; opts r
+    | "--max-n" :: v :: r -> D_spec.max_n := int_of_string v; opts r
+    | _ :: r -> opts r
+    | [] -> ()
+  in
+  opts argv;
+  match argv with
   | _ :: "store" :: path :: _ -> D_store.run path
-  | _ -> prerr_endline "usage: driver <mode> <cases-file>"; exit 2
+  | _ :: "static" :: path :: _ -> D_static.run path
+  | _ :: "spec" :: path :: _ -> D_spec.run path
+  | _ -> prerr_endline "usage: driver <mode> <cases-file> [--thr N]"; exit 2
